@@ -7,7 +7,13 @@ Tie      random grammar terms are built as REAL insights.parsr combinator object
          run by the Lean model (Drivers/C19.lean: IV.Peg.run / call).  Compared per (term, input):
          position + value or failure of `process(0, data, ctx)`, whether ctx.function_error is set, the
          tag stack left in ctx.tags, and what `Parser.__call__` reports (value / parse error / function error).
-Oracle   `peg()` below: an independent recursive-descent evaluator written from the textbook PEG rules
+         The driver's fuel is `IV.Peg.bound rules term |input|` (Props.C19.no_divergence) and it reports the model's
+         `WellFormed` for every generated grammar (must be 1: the generator's discipline is the theorem's hypothesis).
+Shipped  translate/grammars.py walks the live objects json_parser.Top and taglang.parse into IV/Gen/Grammars.lean at the
+         start of every run; the TRANSLATED grammars are run in the driver on the same documents / expressions as the
+         real ones (streams json-translated-vs-real, taglang-translated-vs-real: value or error class of __call__,
+         resp. Predicate.test on 32 tag sets).
+Oracle   `Ref` below: an independent recursive-descent evaluator written from the textbook PEG rules
          (functional state: a failed alternative leaves no trace; a raising action aborts the parse),
          evaluated on the same terms.  Shipped grammars: insights.parsr.examples.json_parser against
          json.loads on the documented subset, insights.core.taglang.parse against boolean evaluation
@@ -19,7 +25,7 @@ import os
 import re
 import signal
 
-from harness.common import VERIF, enc, run_driver
+from harness.common import VERIF, REPO, enc, dec, run_driver
 
 import insights.parsr as P
 from insights.parsr import (Backtrack, Char, Choice, Context, EndTagName, FollowedBy, Forward, InSet, KeepLeft,
@@ -28,7 +34,7 @@ from insights.parsr import (Backtrack, Char, Choice, Context, EndTagName, Follow
 from insights.parsr.examples import json_parser
 from insights.core import taglang
 
-FUEL = 2000
+FUEL = "auto"     # the driver computes IV.Peg.bound rules term |input| (Props.C19.no_divergence)
 # the private sentinel of sep_by (absent in trees without fix 8179445: then nothing is ever equal to it)
 NO_MATCH = getattr(Parser, "_NO_MATCH", object())
 AnyCharCls = type(P.AnyChar)
@@ -46,10 +52,14 @@ def canon(v):
         return "B%d" % v
     if isinstance(v, int):
         return "I%d" % v
+    if isinstance(v, float):
+        return "F" + repr(v)
     if isinstance(v, str):
         return "S" + enc(v)
     if isinstance(v, list):
         return "[" + ";".join(canon(x) for x in v) + "]"
+    if isinstance(v, dict):
+        return "{" + ";".join(canon(k) + ":" + canon(x) for k, x in v.items()) + "}"
     return "?" + type(v).__name__
 
 
@@ -59,7 +69,7 @@ def val_tokens(v):
     if v is NO_MATCH:
         return ["X"]
     if isinstance(v, bool):
-        raise Untranslatable("bool value")
+        return ["B", "1" if v else "0"]
     if isinstance(v, int):
         return ["I", str(v)]
     if isinstance(v, str):
@@ -123,6 +133,14 @@ def fn_tokens(func):
         return ["accum"]
     tok = getattr(func, "_c19", None)
     if tok is None:
+        # the functions of the shipped grammars (identified by identity with the live objects)
+        from translate import grammars as tg
+        try:
+            shipped = tg.shipped_fn_tokens(func)
+        except tg.Unsupported as e:
+            raise Untranslatable(str(e))
+        if shipped is not None:
+            return shipped
         raise Untranslatable("mapped function %r" % getattr(func, "__name__", func))
     if len(tok) == 1:
         return [tok[0]]
@@ -830,7 +848,7 @@ def check_grammar(chk, g, inputs, cases, impl_lines, model_lines):
         case = {"kind": "term", "grammar": g, "input": s}
         cases.append(case)
         impl_lines.append(line)
-        model_lines.append("run\t%d\t%s\t%s\t%s" % (FUEL, rtok, ttok, enc(s)))
+        model_lines.append("run\t%s\t%s\t%s\t%s" % (FUEL, rtok, ttok, enc(s)))
         chk.case((ttok, rtok, s), nontrivial=line.startswith("ok"))
         chk.count("result:" + line.split("|")[0].split(" ")[0] + ("/function-error" if cferr else ""))
         if line == "hang":
@@ -1087,12 +1105,25 @@ def run(chk):
         "sep_by's _accumulate); the theorems hold for every table",
         "str.lower() is modelled on ASCII only (Literal ignore_case / EndTagName ignore_case); inputs are ASCII",
         "ctx.pos/errors/parser_stack (error text), PosMarker, WithIndent/HangingString (indent stack) are not modelled",
-        "termination (fuel suffices) is not proved for a syntactic class of grammars; the generator only builds grammars "
-        "whose repetitions consume, and the driver's fuel (%d) was never exhausted on them" % FUEL,
-        "the shipped JSON and tag-expression grammars are tied by oracle streams (json.loads / boolean evaluation), "
-        "not translated into model terms",
+        "termination: every generated grammar is checked WellFormed by the model (driver field wf=1) and every model run "
+        "uses the fuel `bound rules term |input|` that Props.C19.no_divergence proves sufficient; a fuel-exhausted answer "
+        "would show up as model:fuel-exhausted and as a correspondence mismatch",
+        "the shipped JSON and tag-expression grammars are translated from their live object graphs into model terms "
+        "(translate/grammars.py -> IV/Gen/Grammars.lean, trusted for the shape of the walk; functions identified by identity) "
+        "and tied three-way: real grammar / translated grammar in the model / json.loads resp. boolean evaluation",
+        "float(text) is not modelled: the model's number is the text and the harness applies float() to it before comparing; "
+        "re.search in taglang.Regex is modelled as substring search (the generated patterns have no metacharacters)",
     ]
-    chk.lean()
+    # ---- 0. the shipped grammars, re-translated from the live objects
+    try:
+        from translate import grammars as tg
+        text, _ = tg.generate(REPO)
+        changed = tg.write_if_changed(text)
+        chk.extra["translator"] = {"source": "live objects json_parser.Top, taglang.parse under " + REPO,
+                                   "generated": "lean/IV/Gen/Grammars.lean", "rewrote_generated_file": changed}
+    except Exception as e:
+        chk.tie_broken("translator", "%s: %s" % (type(e).__name__, e), None)
+    chk.lean(extra_targets=["IV.Gen.Grammars"])
     os.makedirs(os.path.join(VERIF, "corpus", "C19"), exist_ok=True)
     witnesses(chk)
 
@@ -1103,6 +1134,13 @@ def run(chk):
         if not model_lines:
             return
         model = run_driver("C19", model_lines)
+        # last field: the model's WellFormed (the hypothesis of no_divergence) on the generated grammar
+        bad_wf = [c for c, m in zip(cases, model) if not m.endswith("|wf=1")]
+        chk.count("grammar:WellFormed", len(model) - len(bad_wf))
+        if bad_wf:
+            chk.tie_broken("generator-discipline", "%d generated grammars are not WellFormed in the model" % len(bad_wf),
+                           {"kind": "term", "grammar": bad_wf[0]["grammar"], "input": bad_wf[0]["input"]})
+        model = [m.rsplit("|wf=", 1)[0] for m in model]
         n_div = sum(1 for m in model if m.startswith("diverge"))
         if n_div:
             chk.count("model:fuel-exhausted", n_div)
@@ -1135,33 +1173,95 @@ def run(chk):
         chk.count("stream1:stopped-after-hang")
     flush()
 
-    # ---- stream 2: JSON grammar vs json.loads on the documented subset
+    # ---- stream 2: JSON grammar vs json.loads on the documented subset  (+ the TRANSLATED grammar in the model)
+    jdocs = []
     for i in range(n_json):
         quirks = rng.random() < 0.04
         doc = gen_json(rng, rng.choice([0, 1, 2, 2, 3, 3]), quirks)
         chk.case(("json", doc), True)
         json_case(chk, doc, "subset")
+        jdocs.append(doc)
         if i == 7:
             chk.sample({"json": doc, "impl": repr(json_impl(doc))})
         # near misses: one structural character inserted or deleted; over-acceptance is a failure too
         if rng.random() < 0.3 and doc.strip():
             j = rng.randrange(len(doc))
             mut = rng.choice([doc[:j] + rng.choice(",0[]{}:") + doc[j:], doc[:j] + doc[j + 1:]])
+            jdocs.append(mut)
             if "'" not in mut and "\\" not in mut and '""' not in mut and not RE_CTRL_IN_STRING(mut):
                 chk.case(("json-mut", mut), json_ref(mut)[0] == "ok")
                 json_case(chk, mut, "near-miss")
     chk.stream("json-vs-json.loads", chk.dist.get("json:subset:agree-ok", 0) + chk.dist.get("json:near-miss:agree-ok", 0) +
                chk.dist.get("json:near-miss:agree-error", 0), 0)
+    jdocs += JSON_EXTRA
+    real = [call_canon(json_parser.Top, d) for d in jdocs]
+    model = [defloat(m) for m in run_driver("C19", ["json\t" + enc(d) for d in jdocs])]
+    for r in real:
+        chk.count("json-translated:" + r.split(" ")[0])
+    chk.compare("json-translated-vs-real", [{"kind": "json", "doc": d} for d in jdocs], real, model)
 
-    # ---- stream 3: tag expressions vs boolean evaluation
+    # ---- stream 3: tag expressions vs boolean evaluation  (+ the TRANSLATED grammar in the model)
+    texts = []
     for i in range(n_tag):
         e = gen_expr(rng, rng.choice([1, 2, 3, 3, 4]))
         text = render(rng, e, 0)
         chk.case(("tag", text), True)
         tag_case(chk, text, e)
+        texts.append((text, e))
+        if rng.random() < 0.15 and text:
+            j = rng.randrange(len(text))
+            mut = rng.choice([text[:j] + text[j + 1:], text[:j] + rng.choice("!&|,() a") + text[j:]])
+            # re.compile / re.search are not modelled beyond patterns without metacharacters
+            if all(m.group(1) == "" or m.group(1).isalnum() for m in re.finditer(r"/(\S*)", mut)):
+                texts.append((mut, None))
         if i == 5:
             chk.sample({"tag-expression": text, "ast": e})
     chk.stream("taglang-vs-boolean", chk.dist.get("taglang:agree", 0), 0)
+    sets = list(tagsets())
+    sets_field = ",".join("+".join(enc(t) for t in ts) if ts else "_" for ts in sets)
+    real = [tag_bits(t, sets) for t, _ in texts]
+    model = run_driver("C19", ["tag\t%s\t%s" % (enc(t), sets_field) for t, _ in texts])
+    for r in real:
+        chk.count("taglang-translated:" + ("bits" if r[0] in "01" else r))
+    chk.compare("taglang-translated-vs-real", [{"kind": "taglang-text", "text": t} for t, _ in texts], real, model)
+
+
+JSON_EXTRA = ["[0, 1]", "[null]", "[false]", "[,1]", '{,"a":1}', "01", "[007]", "[ ]", "{ }", '{"a" :1}', '""', "'a b'",
+              '"a\\"b"', "-", "1.", "[1,]", '{"a":1,"a":2}', "", "  ", "[[[[[[1]]]]]]", "tru", "nul l", "-0", "1.5.2"]
+
+
+def call_canon(parser, text):
+    """what Parser.__call__ reports, canonically"""
+    RecCtx.last = None
+    try:
+        return "value " + canon(parser(text, Ctx=RecCtx))
+    except Exception:
+        c = RecCtx.last
+        return "ferr" if (c is not None and c.function_error is not None) else "perr"
+
+
+RE_FLOAT = re.compile(r"F([0-9a-f.]+)")
+
+
+def defloat(line):
+    """the model's float is the text handed to float(): apply the (unmodelled) conversion here"""
+    return RE_FLOAT.sub(lambda m: "F" + repr(float(dec(m.group(1)))), line)
+
+
+def tag_bits(text, sets):
+    RecCtx.last = None
+    try:
+        pred = taglang.parse(text, Ctx=RecCtx)
+    except Exception:
+        c = RecCtx.last
+        return "ferr" if (c is not None and c.function_error is not None) else "perr"
+    out = []
+    for ts in sets:
+        try:
+            out.append("1" if pred(ts) else "0")
+        except Exception:
+            out.append("?")
+    return "".join(out)
 
 
 def RE_CTRL_IN_STRING(doc):
@@ -1195,7 +1295,7 @@ def replay(data):
         line, summary, cferr = run_impl(top, s)
         want = reference(term, rules, s)
         rtok = " ".join([str(len(rules))] + [x for r in rules for x in tokens(r)])
-        m = run_driver("C19", ["run\t%d\t%s\t%s\t%s" % (FUEL, rtok, " ".join(tokens(term)), enc(s))])[0]
+        m = run_driver("C19", ["run\t%s\t%s\t%s\t%s" % (FUEL, rtok, " ".join(tokens(term)), enc(s))])[0].rsplit("|wf=", 1)[0]
         print("term          :", " ".join(tokens(term)))
         print("implementation:", line)
         print("model         :", m)
@@ -1206,7 +1306,19 @@ def replay(data):
     elif kind == "json":
         a, b = json_impl(c["doc"]), json_ref(c["doc"])
         print("json grammar:", a, " json.loads:", b)
-        bad = not (a[0] == b[0] and (a[0] == "error" or same_json(a[1], b[1])))
+        real = call_canon(json_parser.Top, c["doc"])
+        model = defloat(run_driver("C19", ["json\t" + enc(c["doc"])])[0])
+        print("real grammar (canonical):", real)
+        print("translated grammar in the model:", model, "" if real == model else "  <-- DISAGREE")
+        in_subset = "'" not in c["doc"] and "\\" not in c["doc"] and '""' not in c["doc"] and not RE_CTRL_IN_STRING(c["doc"])
+        bad = in_subset and not (a[0] == b[0] and (a[0] == "error" or same_json(a[1], b[1])))
+    elif kind == "taglang-text":
+        sets = list(tagsets())
+        sets_field = ",".join("+".join(enc(t) for t in ts) if ts else "_" for ts in sets)
+        real = tag_bits(c["text"], sets)
+        model = run_driver("C19", ["tag\t%s\t%s" % (enc(c["text"]), sets_field)])[0]
+        print("real grammar    :", real)
+        print("translated/model:", model, "" if real == model else "  <-- DISAGREE")
     elif kind == "taglang":
         e = _tuplify(c["expr"])
         try:
